@@ -55,7 +55,7 @@ LEVEL_NOTE = (
     "Await points are those the harness supplies (async drops, loader hops, executor hop run inline); OS threads are "
     "not modelled; tasks switch only at awaits, so all interleavings of k tasks are covered without a preemption bound."
 )
-TECHNIQUE = "sync/async differential over an enumerated program space + exhaustive DFS over event-loop schedules of k concurrent renders (virtual asyncio loop)"
+TECHNIQUE = "sync/async differential over an enumerated program space + exhaustive DFS over event-loop schedules of k concurrent renders (virtual asyncio loop) + exhaustive enumeration of load / file-change histories run all-sync and all-async"
 ASSUMPTIONS = [
     "asyncio tasks switch only at await points",
     "run_in_executor work is modelled as one scheduling step on the virtual loop",
